@@ -127,6 +127,10 @@ class Gen:
         nsec = r.choice([1, 2, 2, 3])
         L = ["P %s%s" % (arch, (" %d" % base) if known else "")] + ["L"] * nlab + ["NS %d" % r.choice([1, 8, 16, 64]) for _ in range(nsec - 1)]
         pool = [self.target64(base) for _ in range(r.randrange(1, 6))]
+        if arch == "a64" and r.random() < 0.3:
+            # adrp with an absolute target, first instruction of .text (pc = base): AsmJit accepts it when target - pc is a multiple of 4096
+            pages = r.choice([r.randrange(-1 << 16, 1 << 16), r.choice([1, -1]) * ((1 << 20) + r.randrange(-3, 3)), 0, 1, -1])
+            L.append("R adrpi %d %d" % (r.randrange(31), (base + pages * 4096 + (r.choice([4, 8, 2048]) if r.random() < 0.15 else 0)) & M64))
         tail_done = False
         bound = set()
         cur = 0
@@ -155,7 +159,11 @@ class Gen:
                                  [r.randrange(-1 << 24, 1 << 24) * 4] * 3 + [r.choice([1, -1]) * (pc_lim + r.randrange(-1000, 1000) * 4), r.randrange(-1 << 20, 1 << 20)])
                     t = (base + d) & M64
                     k = r.random()
-                    L.append(("R bi %d" % t) if k < 0.45 else ("R bli %d" % t) if k < 0.9 else "R bcondi %d %d" % (r.randrange(14), (base + r.randrange(-1 << 18, 1 << 18) * 4) & M64))
+                    if k < 0.18:
+                        # adr / adrp with an absolute target: adr reaches +-1 MiB; adrp is accepted by AsmJit when target - pc is a multiple of 4096
+                        L.append("R adri %d %d" % (r.randrange(31), (base + r.choice([r.randrange(-1 << 19, 1 << 19), r.choice([1, -1]) * ((1 << 20) + r.randrange(-8, 8))])) & M64))
+                    else:
+                        L.append(("R bi %d" % t) if k < 0.5 else ("R bli %d" % t) if k < 0.9 else "R bcondi %d %d" % (r.randrange(14), (base + r.randrange(-1 << 18, 1 << 18) * 4) & M64))
             elif c < 0.45:
                 small = base < (1 << 31) - (1 << 20)
                 L.append("EL %d %d" % (r.randrange(nlab), r.choice(([4, 8, 8, 0] if small else [8, 8, 8, 8, 0, 0, 0, 4]) if arch != "x86" else [4] * 6 + [0, 0, 2])))
@@ -342,7 +350,7 @@ def track(prog, hout):
             info["sites"].append(s)
         elif tag == "R" and err == "ok":
             ins = t[1]
-            if ins in ("calli", "jmpi", "jcci", "bi", "bli", "bcondi"):
+            if ins in ("calli", "jmpi", "jcci", "bi", "bli", "bcondi", "adri", "adrpi"):
                 s = Site(); s.kind = ins; s.sec = cur; s.off = before; s.length = n; s.target = int(t[-1]); s.line = inp
                 info["sites"].append(s)
             elif ins in ABS_ADDR_ARG:
@@ -359,12 +367,18 @@ def track(prog, hout):
             if ins in ABS_ADDR_ARG:
                 justified = abs_mem_error_justified(arch, t, err, info["known"], before)
                 info["refused"] = info.get("refused", 0) + 1
-            elif info["known"] is not None and err == "invalid_disp" and ins in ("jcci", "bi", "bli", "bcondi"):
+            elif info["known"] is not None and err == "invalid_disp" and ins in ("jcci", "bi", "bli", "bcondi", "adri", "adrpi"):
                 # base known in advance: an unreachable conditional branch / a64 branch is refused at assembly time
                 tgt = int(t[-1])
                 if ins == "jcci":
                     dsp = sext(tgt - (info["known"] + before + 6), 64)
                     justified = arch == "x64" and not -(1 << 31) <= dsp < (1 << 31)
+                elif ins in ("adri", "adrpi"):
+                    pc = info["known"] + before
+                    dsp = sext(tgt - pc, 64)
+                    # base known: EmitOp_Rel encodes target - Page(pc) for ADRP (needs a page-aligned target), target - pc for ADR
+                    dpg = sext(tgt - (pc & ~0xFFF), 64)
+                    justified = (not -(1 << 20) <= dsp < (1 << 20)) if ins == "adri" else (bool(dpg % 4096) or not -(1 << 32) <= dpg < (1 << 32))
                 else:
                     dsp = sext(tgt - (info["known"] + before), 64)
                     bits = 19 if ins == "bcondi" else 26
@@ -598,6 +612,19 @@ def evaluate(info, image, base, stats):
                 probs.append(("C04/branch-target/%s" % arch, "%s at %d:%d: bytes %s at address %#x do not reach %#x" % (s.line, s.sec, s.off, raw.hex(), base + pos, s.target)))
             else:
                 stats["exact"] += 1
+        elif s.kind in ("adri", "adrpi"):
+            raw = rd(pos, 4)
+            w = int.from_bytes(raw, "little")
+            imm = sext((((w >> 5) & 0x7FFFF) << 2) | ((w >> 29) & 3), 21)
+            pc = base + pos
+            if s.kind == "adri":
+                got, want = (pc + imm) & M64, s.target
+            else:   # ADRP: Page(pc) + imm * 4096 must be the page of the target
+                got, want = ((pc & ~0xFFF) + (imm << 12)) & M64, s.target & ~0xFFF
+            if got != want:
+                probs.append(("C04/adr-target/a64", "%s at %d:%d: word %#x at address %#x yields %#x, not %#x" % (s.line, s.sec, s.off, w, pc, got, want)))
+            else:
+                stats["exact"] += 1
         elif s.kind in ("bi", "bli", "bcondi"):
             raw = rd(pos, 4)
             w = int.from_bytes(raw, "little")
@@ -649,6 +676,16 @@ def expected_error(info, base):
             dsp = sext(s.target - (base + pos + s.length), 64)
             if not -(1 << 31) <= dsp < (1 << 31):
                 return "%s: target out of rel32 range" % s.line
+        elif s.kind == "adri" and info["known"] is None:
+            dsp = sext(s.target - (base + pos), 64)
+            if not -(1 << 20) <= dsp < (1 << 20):
+                return "%s: target not reachable by adr (displacement %d)" % (s.line, dsp)
+        elif s.kind == "adrpi" and info["known"] is None:
+            dsp = sext(s.target - (base + pos), 64)
+            # AsmJit encodes target - pc and accepts it only as a multiple of 4096 (a refusal otherwise; EmitOp_Rel carries a TODO for ADRP)
+            # ... and relocate_to_base limits every AbsToRel value to int32 in 64-bit mode, so +-2 GiB instead of the architectural +-4 GiB
+            if dsp % 4096 or not -(1 << 31) <= dsp < (1 << 31):
+                return "%s: target - pc = %d is not a multiple of 4096 within +-2 GiB" % (s.line, dsp)
         elif s.kind in ("bi", "bli", "bcondi") and info["known"] is None:
             dsp = sext(s.target - (base + pos), 64)
             bits = 19 if s.kind == "bcondi" else 26
@@ -832,7 +869,7 @@ def run(ck):
     stats["pairs_compared"] = npairs
     disagreements, nontrivial = 0, 0
     for res in results:
-        if any(l.startswith(("R calli", "R jmpi", "R jcci", "R bi", "R bli", "R bcondi", "EL", "ED", "R mov", "R lea", "R abs")) for l in res["prog"]):
+        if any(l.startswith(("R calli", "R jmpi", "R jcci", "R bi", "R bli", "R bcondi", "R adr", "EL", "ED", "R mov", "R lea", "R abs")) for l in res["prog"]):
             nontrivial += 1
         for (key, what) in res["problems"]:
             ck.violation(key, what, {"program": res["prog"], "arch": res["prog"][0].split()[1]})
